@@ -86,7 +86,14 @@ def ladders(ctx, L):
     L.check(ok and tuple(ops) == (('shiftLeft(', '<<'), ('bitMaskOr(', '|')), 'C14a.operator-ladder', 'isar.operators', isar.rel,
             'isar function-style operators must map shiftLeft -> << and bitMaskOr -> |', str(ops))
     eo = isar.func('expand_operators')
-    L.check("string_ = string_[:open_pos] + '(({}) {} ({}))'.format(arg1, operator[1], arg2) + string_[close_pos:]" in ws(unparse(eo.node)),
+    loops = [lp for lp in eo.walk() if isinstance(lp, ast.For) and ws(unparse(lp.iter)) == 'operators']
+    sym = None
+    if len(loops) == 1:
+        tg = loops[0].target
+        # the table rows are (call prefix, infix symbol): read by index or unpacked in the loop header
+        sym = '%s[1]' % tg.id if isinstance(tg, ast.Name) else tg.elts[1].id if isinstance(tg, ast.Tuple) and len(tg.elts) == 2 \
+            and isinstance(tg.elts[1], ast.Name) else None
+    L.check(sym is not None and ("string_ = string_[:open_pos] + '(({}) {} ({}))'.format(arg1, %s, arg2) + string_[close_pos:]" % sym) in ws(unparse(eo.node)),
             'C14a.operator-ladder', 'isar.expand_operators', eo.site(),
             'operator calls are rewritten to fully parenthesised infix: ((a) op (b))', ws(unparse(eo.node))[:300])
 
